@@ -260,6 +260,20 @@ macro_rules! enum_value {
 
 use enum_value;
 
+/// Verification hook: evaluate the (crate-private) header validator of a channel on raw bytes.
+/// `channel`: 0 = frontend requests, 1 = backend requests, 2 = GPU backend requests.
+#[cfg(feature = "verif-hooks")]
+pub fn verif_header_is_valid(channel: u8, raw: [u8; 12]) -> bool {
+    use self::message::{BackendReq, FrontendReq, VhostUserMsgHeader, VhostUserMsgValidator};
+    use vm_memory::ByteValued;
+    match channel {
+        0 => VhostUserMsgHeader::<FrontendReq>::from_slice(&raw).is_some_and(|h| h.is_valid()),
+        1 => VhostUserMsgHeader::<BackendReq>::from_slice(&raw).is_some_and(|h| h.is_valid()),
+        _ => gpu_message::VhostUserGpuMsgHeader::<gpu_message::GpuBackendReq>::from_slice(&raw)
+            .is_some_and(|h| h.is_valid()),
+    }
+}
+
 #[cfg(all(test, feature = "vhost-user-backend"))]
 mod dummy_backend;
 
